@@ -165,7 +165,8 @@ theorem backup_decomp (H : Str → Str) (o : BackupOpts) (src : List SrcEntry) :
     rfl
   case ops =>
     intro basis band
-    allops [listBlocks_ro, listEntries_ro, backupLoop_wr, flushGroup_wr, finishHunk_wr, bandClose_wr]
+    allops [gcLockListed_ro, listBlocks_ro, listEntries_ro, backupLoop_wr, flushGroup_wr, finishHunk_wr,
+      bandClose_wr]
 
 theorem backup_headGuard (H : Str → Str) (o : BackupOpts) (src : List SrcEntry) :
     HeadGuard (backup H o src) := by
